@@ -74,6 +74,7 @@ DevP(P, n, S) == IF P = {} THEN 0
 
 Q(n, d)  == [n |-> n, d |-> d, q |-> 0]
 None     == [n |-> 0, d |-> 0, q |-> 0]
+Absent   == [n |-> 0, d |-> 0, q |-> 2]     \* the result must have no sample here
 Known(x) == x.d > 0
 Eq(x, y) == x.d > 0 /\ y.d > 0 /\ x.q = y.q /\ x.n * y.d = y.n * x.d
 
@@ -93,6 +94,7 @@ Def(op, P) ==
       CASE op = "sum"    -> Q(S, 1)
         [] op = "count"  -> Q(n, 1)
         [] op = "group"  -> Q(1, 1)
+        [] op = "present" -> Q(1, 1)                             \* present_over_time: 1 iff the window holds a point
         [] op = "min"    -> Q(MinP(P), 1)
         [] op = "max"    -> Q(MaxP(P), 1)
         [] op = "avg"    -> Q(S, n)                              \* avg * n = sum
@@ -108,7 +110,7 @@ Def(op, P) ==
                             IN Q(Val(p), 1)
 
 AggOps  == {"sum", "count", "group", "min", "max", "avg", "stdvar", "stddev", "q25", "q50", "q75", "q100"}
-OTOps   == {"sum", "count", "min", "max", "avg", "stdvar", "stddev", "q0", "q25", "q50", "q75", "last"}
+OTOps   == {"sum", "count", "min", "max", "avg", "stdvar", "stddev", "q0", "q25", "q50", "q75", "last", "present"}
 
 ----------------------------------------------------------------------------
 (* Grouping: by (ls) keeps the labels ls, without (ls) keeps the others.   *)
@@ -322,7 +324,7 @@ AggTable ==
 OTTable ==
     [oi \in 1..Len(OTOpSeq) |->
         [op |-> OTOpSeq[oi],
-         w |-> [w \in 1..WMax |-> [s \in Series |-> [t \in 1..(NT + w - 1) |-> V(OverTime(OTOpSeq[oi], s, t, w))]]]]]
+         w |-> [w \in 1..WMax |-> [s \in Series |-> [t \in 1..(NT + w - 1) |-> V(IF OTOpSeq[oi] = "present" /\ Pts({s}, Window(t, w)) = {} THEN Absent ELSE OverTime(OTOpSeq[oi], s, t, w))]]]]]
 
 Agg5Seq == SetToSeq(Agg5)
 OT7Seq  == SetToSeq(OT7)
